@@ -59,7 +59,7 @@ fn post(rep: &Report, _t: Tier) -> Vec<String> {
             out.push(format!("policy clause {:?} is never the first failing clause of an explored input", c));
         }
     }
-    for fam in ["L1", "L1r", "L2", "L2pair", "L2types", "L2class", "L4", "L5"] {
+    for fam in ["L1", "L1r", "L2", "L2pair", "L2types", "L2class", "L2len", "L4", "L5"] {
         if !rep.classes.contains_key(&format!("{}:accepted", fam)) {
             out.push(format!("family {} contains no accepted packet", fam));
         }
@@ -311,6 +311,16 @@ fn run(ctx: &mut Ctx, rep: &mut Report, mode: Mode) {
             }
         }
     }
+    // every 16-bit value of every length field
+    {
+        let ctxp: *mut Sweep = &mut sw;
+        length_field_packets(|i, p| {
+            let sw = unsafe { &mut *ctxp };
+            if sw.ctx.mine(i) {
+                sw.one("L2len", p);
+            }
+        });
+    }
     // L4
     let seeds = closure_seeds(tier.pick(0, 1));
     for s in &seeds {
@@ -390,6 +400,46 @@ fn run(ctx: &mut Ctx, rep: &mut Report, mode: Mode) {
         }
         p[11] = count as u8;
         l5.push(p);
+    }
+    // pointers into bytes that were never validated as a name (opaque data, DNAME target, TXT) and hold
+    // label bytes the record-name policy forbids, or sound ones
+    for bad in [b'.', b'\\', 0x00, 0x1f, 0x7f, b'x'] {
+        for holder in [16u16, 39, 99] {
+            for user in [0usize, 1, 2, 3] {
+                let mut p = vec![0x12, 0x34, 0x80, 0, 0, 1, 0, 2, 0, 0, 0, 0];
+                p.extend_from_slice(&[1, b'a', 0, 0, 1, 0, 1]);
+                // holder record: data = [2, 'o', bad, 1, 'k', 0] (a pointer-free name as far as bytes go)
+                p.push(0);
+                p.extend_from_slice(&holder.to_be_bytes());
+                p.extend_from_slice(&[0, 1, 0, 0, 0, 1, 0, 6]);
+                let at = p.len();
+                p.extend_from_slice(&[2, b'o', bad, 1, b'k', 0]);
+                let ptr = [0xc0 | (at >> 8) as u8, at as u8];
+                match user {
+                    0 => {
+                        p.extend_from_slice(&ptr);
+                        p.extend_from_slice(&[0, 1, 0, 1, 0, 0, 0, 1, 0, 4, 1, 2, 3, 4]);
+                    }
+                    1 => {
+                        p.extend_from_slice(&[0xc0, 12, 0, 5, 0, 1, 0, 0, 0, 1, 0, 2]);
+                        p.extend_from_slice(&ptr);
+                    }
+                    2 => {
+                        p.extend_from_slice(&[1, b'w']);
+                        p.extend_from_slice(&ptr);
+                        p.extend_from_slice(&[0, 15, 0, 1, 0, 0, 0, 1, 0, 4, 0, 1]);
+                        p.extend_from_slice(&ptr);
+                    }
+                    _ => {
+                        p.extend_from_slice(&[0xc0, 12, 0, 6, 0, 1, 0, 0, 0, 1, 0, 24]);
+                        p.extend_from_slice(&ptr);
+                        p.extend_from_slice(&[0xc0, 12]);
+                        p.extend_from_slice(&[0; 20]);
+                    }
+                }
+                l5.push(p);
+            }
+        }
     }
     for (i, p) in l5.iter().enumerate() {
         if sw.ctx.mine(i as u64) {
